@@ -165,12 +165,17 @@ def generate(repo: str) -> str:
     ext = _find(sol, "Solver", "__exit__")
     if ent is None or ext is None:
         raise Unsupported("UNSUPPORTED lekkersim/sol.py: Solver.__enter__/__exit__ not found")
-    ek, xk = enter_kind(ent), exit_kind(ext)
-    helpers = []
+    syn_ek, syn_xk = enter_kind(ent), exit_kind(ext)
+    syn_helpers = []
     for path, cls, fn in HELPERS:
         f = _find(tree(path), cls, fn)
         name = (cls + "." if cls else "") + fn
-        helpers.append((name, "missing" if f is None else helper_target(f)))
+        syn_helpers.append((name, "missing" if f is None else helper_target(f)))
+    # the facts themselves: observed by executing the with-protocol and every helper on a re-entrant stack (probes.py)
+    from . import probes as _pr
+    (ek, xk), helpers, iface = _pr.run_stack(repo)
+    missing = [n for n, k in syn_helpers if k == "missing"]
+    helpers = list(helpers) + [(n, "missing") for n in missing]
     model = tree("lekkersim/model.py")
     classes = {n.name: n for n in model.body if isinstance(n, ast.ClassDef)}
     # the documented model list: the "Available Models" autosummary of Docs/api_summary.rst, restricted to classes of model.py
@@ -200,6 +205,8 @@ def generate(repo: str) -> str:
             continue
         init = [n for n in c.body if isinstance(n, ast.FunctionDef) and n.name == "__init__"]
         cup = calls_update_pins(init[0]) if init else True
+        if b in iface:
+            cup = iface[b][0]            # observed on instances (probes.block_interface); syntactic only for undocumented classes
         blocks.append((b, cup, buffer_kind(c), str_specs(c)))
     # does Model.solve copy the matrix it collects?  (S_list.append(np.array(...)) / .copy())
     ms = _find(model, "Model", "solve")
@@ -212,16 +219,16 @@ def generate(repo: str) -> str:
                     copies = True
     out = ["-- GENERATED on every run by harness/translate/tables.py from /repo/lekkersim/*.py — do not edit.",
            "namespace Generated", "",
-           "/-- what `Solver.__enter__` does to the stack of active solvers -/",
+           "/-- what `Solver.__enter__` does to the stack of active solvers (observed on a re-entrant stack) -/",
            "inductive EnterKind | push | nop | other deriving DecidableEq, Repr",
            "/-- what `Solver.__exit__` does -/",
            "inductive ExitKind | popAlways | popOnNormal | popOnRaise | nop | other deriving DecidableEq, Repr",
            f"def enterKind : EnterKind := .{ek}",
            f"def exitKind : ExitKind := .{xk}", "",
-           "/-- module-level helpers and the stack element each dereferences (`top` = `sol_list[-1]` only) -/",
+           "/-- helper kinds and the solver of a four-deep re-entrant stack each acts on, observed through the state it changes (`top` = the innermost active solver and no other) -/",
            "def helpers : List (String × String) := ["]
     out.append(",\n".join(f"  ({lean_str(n)}, {lean_str(k)})" for n, k in helpers) + "]")
-    out += ["", "/-- per block class: (name, `__init__` calls `update_pins()`, how `create_S` produces its matrix) -/",
+    out += ["", "/-- per block class: (name, the name -> Pin table is built at construction [observed on instances of the documented classes], how `create_S` produces its matrix) -/",
             "def blocks : List (String × Bool × String) := ["]
     out.append(",\n".join(f"  ({lean_str(b)}, {'true' if cup else 'false'}, {lean_str(bk)})" for b, cup, bk, _ in blocks) + "]")
     out += ["", "/-- documented basic blocks (C09) -/",
@@ -231,10 +238,10 @@ def generate(repo: str) -> str:
             "/-- `Model.solve` collects a copy of what `create_S` returns (established by sweeping a probe block that rebuilds its",
             "matrix in one persistent buffer) -/",
             "def modelSolveCopies : Bool := MODEL_SOLVE_COPIES", "",
-            "/-- format specs applied in `__str__` : (class, expression, spec, expression is a float(...) call) -/",
-            "def strSpecs : List (String × String × String × Bool) := ["]
-    specs = [(b, e, s, fl) for b, _, _, ss in blocks for e, s, fl in ss]
-    out.append(",\n".join(f"  ({lean_str(b)}, {lean_str(e)}, {lean_str(s)}, {'true' if fl else 'false'})" for b, e, s, fl in specs) + "]")
+            "/-- per documented block class: `str()` works whatever numeric type (int, float, numpy.float64, numpy.int64) the",
+            "constructor arguments have (observed on instances) -/",
+            "def strOk : List (String × Bool) := ["]
+    out.append(",\n".join(f"  ({lean_str(b)}, {'true' if v[1] else 'false'})" for b, v in sorted(iface.items())) + "]")
     # read-out accessor formulas (C15): normalised source text of the defining expressions
     acc = []
 
@@ -359,7 +366,7 @@ def generate(repo: str) -> str:
         out.append(f"def {k} : Bool := {'true' if pr[k][0] else 'false'}")
     out = [l.replace("MODEL_SOLVE_COPIES", f"{'true' if pr['modelSolveCopies'][0] else 'false'}") for l in out]
     out += ["", "end Generated", ""]
-    generate.info = {"probes": {k: {"holds": v[0], "error": v[1], "syntactic_recogniser": syn[k]} for k, v in pr.items()}}
+    generate.info = {"with_protocol_syntactic": [syn_ek, syn_xk], "helpers_syntactic": dict(syn_helpers), "probes": {k: {"holds": v[0], "error": v[1], "syntactic_recogniser": syn[k]} for k, v in pr.items()}}
     return "\n".join(out)
 
 
